@@ -103,7 +103,7 @@ def run_tlc(module: str, cfg_text: str, workdir: Path, *, workers: int | str | N
     jopts = f"-DTLA-Library={lib}"
     if dfs:
         jopts += " -Dtlc2.tool.queue.IStateQueue=StateDeque"
-    cmd = ["java", "-XX:+UseParallelGC", f"-Xmx{heap}", "-cp", f"{TLA_JAR}:{TLA_DEPS}", *jopts.split(),
+    cmd = ["java", "-XX:+UseParallelGC", f"-Xmx{heap}", "-Xss256m", "-cp", f"{TLA_JAR}:{TLA_DEPS}", *jopts.split(),
            "tlc2.TLC", "-workers", str(workers), "-metadir", str(meta), "-noGenerateSpecTE",
            "-config", str(cfg)]
     if not deadlock:
